@@ -9,6 +9,12 @@
 (*   {"op":"rt","m":<bool>}                      set_retrigger_mode         *)
 (*   {"op":"pri","p":"last|high|low"}            set_note_priority          *)
 (*   {"op":"panic","msg":...}                    a call panicked            *)
+(*   {"op":"mark"} ... {"op":"rep","n":k}        run-length compression: the *)
+(*        events between the two were followed by k repetitions of exactly  *)
+(*        the same calls with exactly the same observations, line for line  *)
+(*        (compared by the recorder); accepted iff the marked repetition    *)
+(*        returned the specification to the state it had at the mark, so    *)
+(*        that each of the k repetitions is a behaviour already examined    *)
 (* o = [gate, note, K(velocity), K(pitch_bend), K(mod), K(volume),          *)
 (*      K(cutoff), K(resonance), K(porta time), porta_enabled, sustain_en]  *)
 (* K = order key of the f32 (see DESIGN 3.1); NaNKey = 2147483647 if the value is NaN.    *)
@@ -18,9 +24,12 @@ EXTENDS Midi, TraceLib, Tables
 VARIABLES l,      \* index of the next event
           dead,   \* properties for which a divergence was already reported in this run
           drv,    \* driver class of the current run (decides which property owns a mismatch)
-          lastPb  \* <<14-bit value, key>> of the previous pitch-bend observation (monotonicity)
+          lastPb, \* <<14-bit value, key>> of the previous pitch-bend observation (monotonicity)
+          snap    \* the state at the last "mark" event (ghost counters excluded)
 
-tvars == <<vars, l, dead, drv, lastPb>>
+tvars == <<vars, l, dead, drv, lastPb, snap>>
+
+Core == <<wireVars, chan, held, gate, rise, fall, note, vel, over, ctlVars, modeVars, lastPb>>
 
 e == Rec[l]
 
@@ -71,41 +80,48 @@ Advance(tags) ==
 TNew ==
   /\ e.op = "new"
   /\ New(e.c)
-  /\ l' = l + 1 /\ dead' = {} /\ drv' = e.drv /\ lastPb' = <<8192, 0>>
+  /\ l' = l + 1 /\ dead' = {} /\ drv' = e.drv /\ lastPb' = <<8192, 0>> /\ snap' = <<>>
 
 TByte ==
   /\ e.op = "b"
   /\ Byte(e.b)
-  /\ drv' = drv
+  /\ drv' = drv /\ snap' = snap
   /\ lastPb' = IF e.o[4] = NaNKey THEN lastPb ELSE <<pb', e.o[4]>>
   /\ Advance(Own(ObsTags(e.o)))
 
 TPollR ==
   /\ e.op = "pr"
   /\ PollRising
-  /\ UNCHANGED <<drv, lastPb>>
+  /\ UNCHANGED <<drv, lastPb, snap>>
   /\ Advance(Own(IF e.r # rise THEN {<<"C05", "rising">>} ELSE {}))
 
 TPollF ==
   /\ e.op = "pf"
   /\ PollFalling
-  /\ UNCHANGED <<drv, lastPb>>
+  /\ UNCHANGED <<drv, lastPb, snap>>
   /\ Advance(Own(IF e.r # fall THEN {<<"C05", "falling">>} ELSE {}))
 
-TRetrig == /\ e.op = "rt"  /\ SetRetrig(e.m) /\ UNCHANGED <<drv, lastPb>> /\ Advance({})
-TPrio   == /\ e.op = "pri" /\ SetPrio(e.p)   /\ UNCHANGED <<drv, lastPb>> /\ Advance({})
+TRetrig == /\ e.op = "rt"  /\ SetRetrig(e.m) /\ UNCHANGED <<drv, lastPb, snap>> /\ Advance({})
+TPrio   == /\ e.op = "pri" /\ SetPrio(e.p)   /\ UNCHANGED <<drv, lastPb, snap>> /\ Advance({})
 
 TPanic ==
   /\ e.op = "panic"
-  /\ UNCHANGED <<vars, drv, lastPb>>
+  /\ UNCHANGED <<vars, drv, lastPb, snap>>
   /\ Advance({<<"C17", "panic">>, <<"C06", "panic">>})
 
 \* first line of a violation replay file: who produced it (ignored)
-TMeta == e.op = "meta" /\ UNCHANGED <<vars, dead, drv, lastPb>> /\ l' = l + 1
+TMeta == e.op = "meta" /\ UNCHANGED <<vars, dead, drv, lastPb, snap>> /\ l' = l + 1
 
-TNext == l <= NRec /\ (TMeta \/ TNew \/ TByte \/ TPollR \/ TPollF \/ TRetrig \/ TPrio \/ TPanic)
+TMark == e.op = "mark" /\ snap' = Core /\ UNCHANGED <<vars, dead, drv, lastPb>> /\ l' = l + 1
+TRep ==
+  /\ e.op = "rep"
+  /\ UNCHANGED <<vars, drv, lastPb, snap>>
+  /\ Advance(IF Core = snap THEN {} ELSE {<<"C04", "repetition-not-a-cycle">>, <<"C05", "repetition-not-a-cycle">>,
+                                           <<"C06", "repetition-not-a-cycle">>, <<"C18", "repetition-not-a-cycle">>})
 
-TInit == InitFor(0) /\ l = 1 /\ dead = {} /\ drv = "none" /\ lastPb = <<8192, 0>> /\ FlagInit
+TNext == l <= NRec /\ (TMeta \/ TMark \/ TRep \/ TNew \/ TByte \/ TPollR \/ TPollF \/ TRetrig \/ TPrio \/ TPanic)
+
+TInit == InitFor(0) /\ l = 1 /\ dead = {} /\ drv = "none" /\ lastPb = <<8192, 0>> /\ snap = <<>> /\ FlagInit
 
 TSpec == TInit /\ [][TNext]_tvars
 
